@@ -116,6 +116,18 @@ Theorem C19_interface : forall e local priv emb st t rs st',
              denote (e_self e) local (active st') (rmeth_expr m) = Some (erase (meth_ty m0)))) rs.
 Proof. exact interface_ok. Qed.
 
+(* The import line ImportString() prints for an active import binds, in the Go compiler, exactly
+   the alias the rendered text uses — for plain imports, renamed imports, directories whose name
+   differs from the package name and imports added on demand — provided packages.Package.Imports
+   and go/types report the declared package names ([real]) and every plain import of the file is
+   known to the package. *)
+Theorem C19_import_binding : forall real e specs priv emb t,
+  (forall p n, assoc (e_pkg_imports e) p = Some n -> n = real p) ->
+  (forall p, In (p, None) specs -> assoc (e_pkg_imports e) p <> None) ->
+  tree_truthful real t ->
+  forall i, In i (snd (find_interface e specs priv emb t)) -> bound_name real i = i_alias i.
+Proof. exact import_binding. Qed.
+
 (* ================================================================== non-vacuity *)
 Example C19_example_names :
   final_names [PI "arg0" false false; PI "_" false false] [] = ["arg0"; "arg1"] /\
@@ -163,6 +175,33 @@ Proof.
                      (PI "" false false), (TNamed (Some ("ex.com/sib/ren", "ren")) "R" []). reflexivity.
 Qed.
 
+Definition ex_real (p : string) : string :=
+  if String.eqb p "ex.com/sib/v2" then "realname" else if String.eqb p "context" then "context"
+  else if String.eqb p "ex.com/sib/ren" then "ren" else if String.eqb p "ex.com/third" then "third"
+  else if String.eqb p "ex.com/p" then "p" else "".
+Definition ex_specs : list (string * option string) :=
+  [("context", None); ("ex.com/sib/v2", None); ("ex.com/sib/ren", Some "rr")].
+Definition ex_tree : tree :=
+  Tr (TNamed (Some ("ex.com/p", "p")) "S" [])
+     [M "F" [(PI "a" false false, TNamed (Some ("ex.com/sib/v2", "realname")) "T" [])] false
+            [(PI "" false false, TPtr (TNamed (Some ("ex.com/third", "third")) "G" []))]] [].
+Example C19_example_binding :
+  (forall p n, assoc (e_pkg_imports ex_env) p = Some n -> n = ex_real p) /\
+  (forall p, In (p, None) ex_specs -> assoc (e_pkg_imports ex_env) p <> None) /\
+  tree_truthful ex_real ex_tree /\
+  map import_string (snd (find_interface ex_env ex_specs true true ex_tree))
+    = ["""ex.com/sib/v2"""; """ex.com/third"""].
+Proof.
+  split; [|split; [|split]].
+  - intros p n. unfold ex_env, ex_real. simpl.
+    destruct (String.eqb p "ex.com/sib/v2"); [intros H; injection H as <-; reflexivity|].
+    destruct (String.eqb p "context"); [intros H; injection H as <-; reflexivity|discriminate].
+  - intros p [H|[H|[H|[]]]]; injection H as <-; try discriminate; vm_compute; discriminate.
+  - intros u Hu pp Hpp. simpl in Hu. destruct Hu as [<-|[<-|[]]]; simpl in Hpp;
+      repeat (destruct Hpp as [<-|Hpp]; [reflexivity|]); contradiction.
+  - vm_compute. reflexivity.
+Qed.
+
 Print Assumptions C19_names.
 Print Assumptions C19_names_user_names_kept.
 Print Assumptions C19_names_judged_spec.
@@ -176,3 +215,4 @@ Print Assumptions C19_embedded_orig_refuted.
 Print Assumptions C19_typeref.
 Print Assumptions C19_imports.
 Print Assumptions C19_interface.
+Print Assumptions C19_import_binding.
